@@ -419,3 +419,4 @@ SUBS = [
     Sub("exact_cover", run, strategy=lambda tier: instances(tier), quick=2500, thorough=8000, workers_quick=4, case_timeout=20.0, hang="violation"),
     Sub("zero_columns", run_zero, enumerate=zero_cases, workers_quick=1, workers_thorough=1),
 ]
+AMPLIFY = [("exact_cover", 15000, 4)]  # thorough-tier coverage-guided amplifier (vf/fuzz.py)
